@@ -331,12 +331,15 @@ class Engine:
         return facts
 
     # ----------------------------------------------------------------- heap
-    def alloc(self, clskey, ty):
+    def alloc(self, clskey, ty, type_term=None):
         a = self.comp("$alloc")
         r = a
         self.set_comp("$alloc", a + 1)
-        self.mentioned.add(clskey)
-        self.assume(so.typeof(r) == self.cids.cid(clskey))
+        if type_term is not None:
+            self.assume(so.typeof(r) == type_term)
+        else:
+            self.mentioned.add(clskey)
+            self.assume(so.typeof(r) == self.cids.cid(clskey))
         v = SV(Val.ref(r), ty)
         _t = z3.simplify(v.term)
         self.fresh_objs[_t.get_id()] = (ty, _t)   # keep the term alive: ids are recycled after GC
